@@ -3,6 +3,7 @@
 #include "v_harness.h"
 #include "automata_contracts.h"
 #include "lltdAutomata.c"
+#include "v_nocheck_push.h"      /* harness and specification code below: no implicit checks */
 
 /* verification-port body of the send_hello callback: records a periodic Hello */
 static void v_send_hello(void *network_interface) {
